@@ -75,7 +75,7 @@ func CompileEx(expr string, ignoreCase bool) (*Dissect, error) {
 		expr = expr[end:]
 
 		if ignoreCase {
-			keyUntil = strings.ToLower(keyUntil)
+			keyUntil = lowerASCII(keyUntil)
 		}
 
 		// Special flags
@@ -106,7 +106,7 @@ func CompileEx(expr string, ignoreCase bool) (*Dissect, error) {
 	indexOfFunc := strings.Index
 	if ignoreCase {
 		indexOfFunc = indexIgnoreCase
-		prefix = strings.ToLower(prefix)
+		prefix = lowerASCII(prefix)
 	}
 
 	return &Dissect{
